@@ -296,7 +296,7 @@ def call(fn: Function, inp, ctx):
 class Check(BaseCheck):
     pid = 'C09'
     rule = ('every program of the C09 grammar (caller/callee pairs: 3 callee contexts x 8 callee bodies x 28 call '
-            'positions x 2 argument forms; factory family (2-3 callees capturing different/same values under one name: 3 contexts x 2 bodies x 9 layout-arity combinations x 2 variants); pinned family (declared context = pool format under RTZ/RTP/RTN or SATURATE on caller/callee/both/chain leaf, monomorphized against the pool and every same-format rounding mode: 96 programs); argnest family (inlined call nested in an argument of an inlined call, 7 positions x 3x2 contexts); two-callee family (callee local named like a free variable of another function, 18 programs); 16 extra pair programs with a context built from a constant local; 3-chains: 3x3 contexts x 4 chain bodies x 8 leaf bodies x 9 positions) x '
+            'positions x 2 argument forms; factory family (2-3 callees capturing different/same values under one name: 3 contexts x 2 bodies x 9 layout-arity combinations x 2 variants); pinned family (declared context = pool format under RTZ/RTP/RTN or SATURATE on caller/callee/both/chain leaf, monomorphized against the pool and every same-format rounding mode: 96 programs); argnest family (inlined call nested in an argument of an inlined call, 7 positions x 3x2 contexts); two-callee family (callee local named like a free variable of another function; callees with distinct names and with the same def name from two factories, 36 programs); 16 extra pair programs with a context built from a constant local; 3-chains: 3x3 contexts x 4 chain bodies x 8 leaf bodies x 9 positions) x '
             'every pipeline of length 1 and every ordered pair of 7 base transformations x every pool input x every '
             'pool caller context; f(args, ctx=C) vs T(f)(args, ctx=C) (mono(C): T(f)(args) without ctx; close: '
             'captured globals changed after closing). nontrivial = judged case whose transformed program text '
